@@ -84,6 +84,15 @@ Theorem C09_self_timed_process_tiles : forall n now w, 0 <= w < 7 ->
   end.
 Proof. exact self_timed_tiles. Qed.
 Print Assumptions C09_self_timed_process_tiles.
+(* The span computed at a clock reading contains that reading, so "the span an
+   increment was made in" is determined by the clock reading at the increment.
+   The harness (case rotfail: a rotation that fails once, then weeks of
+   further increments and rotations) requires that no file holds more
+   increments than were made while its own span contained the clock. *)
+Theorem C09_span_contains_now : forall now w, 0 <= w < 7 ->
+  fst (counter_span now w) <= now < snd (counter_span now w).
+Proof. exact span_contains_now. Qed.
+Print Assumptions C09_span_contains_now.
 Theorem C09_rotation_chain_length : forall now w fires, List.length (timer_chain now w fires) = S (List.length fires).
 Proof. exact chain_length. Qed.
 Print Assumptions C09_rotation_chain_length.
